@@ -665,6 +665,7 @@ def c17_case(rec, hub, rng, tier, which):
     # what the model was last told (by label, full shape): the fresh twin is built from THIS, not from what the live object holds
     told = {k: np.array(v, dtype=float) for k, v in cfg["truth"].items()} if lm is not None else {}
     persistent = {}  # parameter objects kept by the "user", changed in place and passed again
+    singular = False  # a re-parameterisation made one label unsolvable (stock-driven, fixed lifetime below half a period)
     base = f"{cls_name}/{solver}|{cfg['model'] if lm is not None else '-'}|{cfg['gclass']}|nt={nt}"
     for step in range(length):
         op = str(rng.choice(["driver", "set_prms", "compute", "read", "compute", "error"])) if step < length - 1 else "compute"
@@ -678,8 +679,17 @@ def c17_case(rec, hub, rng, tier, which):
                     live.outflow.values[...] = driver_values(rng, cfg["shape"], "positive")
             elif op == "set_prms":
                 nt_ = new_truth(cfg, rng)
+                singular = False
                 if cls_name == "StockDrivenDSM":
                     nt_ = {k: np.maximum(v, cfg["truth"][k]) if k in ("mean", "weibull_scale") else v for k, v in nt_.items()}
+                    if cfg["model"] == "FixedLifetime" and len(cfg["shape"]) > 1 and rng.random() < 0.6:
+                        # a lifetime so short for ONE label that nothing of it survives the period it enters: the stock holds no
+                        # information about that label's inflow (singular system); whatever compute() does then, it does the same on a
+                        # fresh object
+                        m_ = np.array(nt_["mean"], dtype=float)
+                        m_[(slice(None),) + tuple(n_ - 1 for n_ in cfg["shape"][1:])] = 0.2 * float(np.min(np.diff(np.array(cfg["items"], dtype=float))))
+                        nt_ = dict(nt_, mean=m_)
+                        singular = True
                 kw = {}
                 mode = rng.random() * (0.7 if persistent else 1.0)
                 for pn, v in nt_.items():
@@ -744,7 +754,7 @@ def c17_case(rec, hub, rng, tier, which):
                 live.lifetime_model.sf
                 live.lifetime_model.pdf
             elif op == "compute":
-                degenerate = lm is not None and any(not np.all(np.isfinite(v_)) or np.any(np.asarray(v_) <= 0) for v_ in told.values())
+                degenerate = lm is not None and (singular or any(not np.all(np.isfinite(v_)) or np.any(np.asarray(v_) <= 0) for v_ in told.values()))
                 live_exc = None
                 try:
                     with np.errstate(all="ignore"):
@@ -774,7 +784,9 @@ def c17_case(rec, hub, rng, tier, which):
                         rec.violation(M17, "compute-with-the-held-parameters-is-refused-on-one-of-live-object-and-fresh-object-only",
                                       dict(history=list(hist), live=repr(live_exc)[:120], fresh=repr(twin_exc)[:120], cls=cls_name, model=cfg["model"]))
                     # the user repairs the parameters before going on
+                    singular = False
                     repaired = {k_: np.where(np.isfinite(v_) & (np.asarray(v_) > 0), v_, np.nanmax(np.where(np.isfinite(v_) & (np.asarray(v_) > 0), v_, np.nan))) for k_, v_ in told.items()}
+                    repaired = {k_: (np.maximum(v_, cfg["truth"][k_]) if k_ in ("mean", "weibull_scale") and cls_name == "StockDrivenDSM" else v_) for k_, v_ in repaired.items()}
                     live.lifetime_model.set_prms(**{k_: np.array(v_) for k_, v_ in repaired.items()})
                     told = {k_: np.array(v_, dtype=float) for k_, v_ in repaired.items()}
                     hist.append("set_prms(repair)")
@@ -983,6 +995,98 @@ def one_label_degenerate_case(rec, hub, rng, tier):
                 if not ok or np.any(~np.isfinite(a)):
                     rec.violation(M16, "label-beside-an-unsolvable-label-evolves-differently-when-computed-alone:StockDrivenDSM", dict(quantity=q, label=lab, unsolvable_label=labels[bad], rel_diff=rel, time_items=items))
                     return
+
+
+def c17_singular_case(rec, hub, rng, tier):
+    """A stock-driven model that has been computed is re-parameterised so that ONE label becomes unsolvable (nothing of it survives the
+    period it enters), then computed again: whatever compute() does then - refuse, or carry on with the other labels - it does exactly
+    what it does on a freshly built stock holding the same stock and parameters."""
+    fd = hub.fd
+    items, gclass = time_grid(rng, tier, str(rng.choice(["unit", "const2", "uneven", "howto"])))
+    items = items[:9]
+    tdim = fd.Dimension(letter="t", name="time", items=list(items))
+    labels = ["car", "packaging", "bicycle"][: int(rng.integers(2, 4))]
+    pdim = fd.Dimension(letter="p", name="product", items=labels, dtype=str)
+    dims = fd.DimensionSet(dim_list=[tdim, pdim])
+    dtv = np.diff(np.array(items, dtype=float))
+    solver = str(rng.choice(["lapack", "manual"]))
+    inflow_at = str(rng.choice(["start", "middle"]))
+    mean0 = rng.uniform(1.5, 4.0, size=len(labels)) * float(dtv.max())
+    stock = np.cumsum(rng.uniform(1.0, 20.0, size=dims.shape), axis=0) + 10.0
+
+    def build(mean):
+        return fd.StockDrivenDSM(dims=dims, stock=fd.StockArray(dims=dims, values=stock.copy()), solver=solver, time_letter="t",
+                                 lifetime_model=fd.FixedLifetime(dims=dims, time_letter="t", inflow_at=inflow_at, mean=fd.FlodymArray(dims=dims[("p",)], values=np.array(mean))))
+
+    live = build(mean0)
+    with quiet(), np.errstate(all="ignore"):
+        live.compute()
+        mean1 = mean0.copy()
+        mean1[int(rng.integers(0, len(labels)))] = 0.2 * float(dtv.min())
+        live.lifetime_model.set_prms(mean=fd.FlodymArray(dims=dims[("p",)], values=mean1.copy()))
+        exc_live = exc_fresh = None
+        try:
+            live.compute()
+        except Exception as e:
+            exc_live = e
+        with hub.pause():
+            fresh = build(mean1)
+            try:
+                fresh.compute()
+            except Exception as e:
+                exc_fresh = e
+    rec.event(M17, sig=f"singular-label|{solver}|{inflow_at}|{gclass}", cls=f"fresh-twin|StockDrivenDSM/{solver}|one label made unsolvable")
+    if (exc_live is None) != (exc_fresh is None):
+        rec.violation(M17, "compute-with-the-held-parameters-is-refused-on-one-of-live-object-and-fresh-object-only", dict(live=repr(exc_live)[:120], fresh=repr(exc_fresh)[:120], solver=solver, cls="StockDrivenDSM", model="FixedLifetime"))
+        return
+    if exc_live is not None:
+        return
+    A, B = S.results_of(live), S.results_of(fresh)
+    for q in A:
+        ok, rel = same_with_gaps(A[q], B[q], 1e-10)
+        if not ok:
+            rec.violation(M17, "recomputed-result-differs-from-fresh-object:after-a-label-became-unsolvable", dict(quantity=q, solver=solver, rel_diff=rel, time_items=items))
+            return
+
+
+def lm_time_not_first_case(rec, hub, rng, tier):
+    """A lifetime model declared over (region, time) - time not first - with per-region parameters, handed to a stock over (time,
+    region) of equal lengths: the stock refuses it, or - if a library accepts such a model - every region still evolves with ITS OWN
+    lifetime, as if computed alone."""
+    fd = hub.fd
+    n = int(rng.integers(3, 7))
+    tdim = fd.Dimension(letter="t", name="time", items=[2000 + j for j in range(n)])
+    rdim = fd.Dimension(letter="r", name="region", items=[f"r{j}" for j in range(n)], dtype=str)
+    mean = rng.uniform(1.0, 6.0, size=n)
+    model = str(rng.choice(["NormalLifetime", "FixedLifetime", "LogNormalLifetime"]))
+    kw = dict(mean=fd.FlodymArray(dims=fd.DimensionSet(dim_list=[rdim]), values=mean.copy()))
+    if model != "FixedLifetime":
+        kw["std"] = fd.FlodymArray(dims=fd.DimensionSet(dim_list=[rdim]), values=mean * 0.3)
+    inflow = rng.uniform(1.0, 50.0, size=(n, n))
+    rec.event(M16, sig=f"lm-time-not-first|{model}|n={n}", cls=f"labels|lifetime model declared with time not first|{model}")
+    try:
+        with quiet():
+            lm = getattr(fd, model)(dims=fd.DimensionSet(dim_list=[rdim, tdim]), time_letter="t", **kw)
+            dims = fd.DimensionSet(dim_list=[tdim, rdim])
+            st = fd.InflowDrivenDSM(dims=dims, inflow=fd.StockArray(dims=dims, values=inflow.copy()), lifetime_model=lm, time_letter="t")
+            st.compute()
+    except Exception:
+        return  # refused somewhere: fine
+    J = S.results_of(st)
+    d1 = fd.DimensionSet(dim_list=[tdim])
+    for j in range(n):
+        with hub.pause(), quiet():
+            kw1 = dict(mean=float(mean[j]))
+            if model != "FixedLifetime":
+                kw1["std"] = float(mean[j] * 0.3)
+            alone = fd.InflowDrivenDSM(dims=d1, inflow=fd.StockArray(dims=d1, values=inflow[:, j].copy()), lifetime_model=getattr(fd, model)(dims=d1, time_letter="t", **kw1), time_letter="t")
+            alone.compute()
+            A = S.results_of(alone)
+        for q in ("stock", "outflow"):
+            ok, rel = allclose_scaled(J[q][:, j], A[q], 1e-10)
+            if not ok:
+                rec.violation(M16, "label-evolves-with-another-label's-lifetime:model-declared-with-time-not-first", dict(quantity=q, region=j, model=model, rel_diff=rel, n=n))
+                return
 
 
 def _last_change(hist):
